@@ -13,6 +13,14 @@ def per_shard(total, nshards=NCPU):
     return (total + nshards - 1) // nshards
 
 
+def other_builds(c, name, driver, mode, count, shards=(12, 13), **kw):
+    """the same workload on a second compiler and on the SIMD-enabled build: defects that exist in one
+    build configuration only (#ifdef NDEBUG / __AVX2__ / __clang__ / optimisation level)"""
+    c.spec(name + "-clang", "clang", driver, mode, count, shards=list(shards), **kw)
+    if HAVE_NATIVE:
+        c.spec(name + "-native", "native", driver, mode, count, shards=list(shards), **kw)
+
+
 # --------------------------------------------------------------------------- C01
 def C01(tier):
     c = Check("C01", tier)
@@ -62,6 +70,7 @@ def C04(tier):
     c.spec("format-rel", "rel", "drv_scalar", "c04", count, params=p, env={"VERIF_REPO": core.REPO})
     c.spec("format-asan", "asan", "drv_scalar", "c04", count, shards=[0, 7], params=p, env={"VERIF_REPO": core.REPO})
     c.spec("format-dbg", "dbg", "drv_scalar", "c04", count, shards=[0, 3], params=p, env={"VERIF_REPO": core.REPO})
+    other_builds(c, "format", "drv_scalar", "c04", count, shards=(0, 5), params=p, env={"VERIF_REPO": core.REPO})
     fams = ["tagged", "chained", "chainedSimple", "split", "splitFull", "splitFullNoZero", "splitFull16"]
     for f in fams:
         lo = 2 if f == "splitFull16" else 1
@@ -92,6 +101,7 @@ def C05(tier):
     c.spec("order-rel", "rel", "drv_scalar", "c05", count, params=p)
     c.spec("order-asan", "asan", "drv_scalar", "c05", count, shards=[1, 9], params=p)
     c.spec("order-dbg", "dbg", "drv_scalar", "c05", count, shards=[2], params=p)
+    other_builds(c, "order", "drv_scalar", "c05", count, shards=(3, 4), params=p)
     c.require("perturbation_pairs", c.stat("c05_perturbation_pairs"), 10000)
     c.require("scalar_sorts", c.stat("c05_scalar_sorts"), 100)
     c.require("tuple_sorts", c.stat("c05_tuple_sorts"), 300)
@@ -170,6 +180,7 @@ def C03(tier):
     c.spec("bound-asan", "asan", "drv_array", "c03", count, shards=sz(tier, list(range(8)), list(range(8))), params=p)
     c.spec("bound-rel", "rel", "drv_array", "c03", count, params=p)
     c.spec("bound-dbg", "dbg", "drv_array", "c03", count, shards=[8, 9], params=p)
+    other_builds(c, "bound", "drv_array", "c03", count, params=p)
     nf = sz(tier, 300_000, 10_000_000)
     c.spec("float-bound-asan", "asan", "drv_float", "c03", per_shard(nf), shards=[0, 1, 2, 3])
     c.spec("float-bound-rel", "rel", "drv_float", "c03", per_shard(nf))
@@ -202,6 +213,7 @@ def C13(tier):
     c.spec("cap-asan", "asan", "drv_array", "c13", count, shards=sz(tier, list(range(8)), list(range(8))), params=[1000])
     c.spec("cap-asanR", "asanR", "drv_array", "c13", count, shards=[8, 9, 10, 11], params=[1000])
     c.spec("cap-rel", "rel", "drv_array", "c13", count, params=[1000])
+    other_builds(c, "cap", "drv_array", "c13", count, params=[1000])
     capcodecs = ["for", "for.batch", "group", "dict.into", "rle", "rle.header", "elias.gamma", "elias.delta", "bp128.32", "bp128.64",
                  "bp128.delta32", "bp128.delta64", "adaptive.DELTA", "adaptive.FOR", "adaptive.PFOR", "adaptive.DICT",
                  "adaptive.BITMAP", "adaptive.TAGGED"]
@@ -225,6 +237,7 @@ def C16(tier):
     c.spec("meta-rel", "rel", "drv_array", "c16", count, params=p)
     c.spec("meta-asan", "asan", "drv_array", "c16", count, shards=[0, 1, 2, 3], params=p)
     c.spec("meta-msan", "msan", "drv_array", "c16", count, shards=[4, 5], params=p)
+    other_builds(c, "meta", "drv_array", "c16", count, shards=(6, 7), params=p)
     nf = sz(tier, 200_000, 5_000_000)
     c.spec("float-meta-rel", "rel", "drv_float", "c16", per_shard(nf))
     c.spec("float-meta-asan", "asan", "drv_float", "c16", per_shard(nf), shards=[0, 1])
@@ -242,12 +255,13 @@ def C16(tier):
 
 def C06(tier):
     c = Check("C06", tier)
-    n = sz(tier, 60_000, 1_500_000)
+    n = sz(tier, 120_000, 1_500_000)
     count = per_shard(n)
     p = [sz(tier, 1500, 4097), sz(tier, 2500, 1500), 0]
     c.spec("adaptive-rel", "rel", "drv_array", "c06", count, params=p, timeout=3000)
     c.spec("adaptive-asan", "asan", "drv_array", "c06", count, shards=sz(tier, [0, 1, 2, 3], [0, 1, 2, 3]), params=p, timeout=3000)
     c.spec("adaptive-dbg", "dbg", "drv_array", "c06", count, shards=[4], params=p, timeout=3000)
+    other_builds(c, "adaptive", "drv_array", "c06", count, shards=(5, 6), params=p, timeout=3000)
     # payloads over 1 MiB: forced DICT on 1.2e6 few-unique values (and one automatic case in the thorough tier)
     c.spec("adaptive-huge", "rel", "drv_array", "c06", 1, nshards=2, shards=sz(tier, [0], [0, 1]), params=[100, 0, 1], timeout=3000)
     for leaf in ("DICT", "BITMAP", "DELTA", "PFOR", "FOR", "TAGGED"):
@@ -441,6 +455,7 @@ def C14(tier):
     c.spec("hostile-asanR", "asanR", "drv_hostile", "c14", count, build_kw=WRAP, timeout=1800)
     c.spec("hostile-asan", "asan", "drv_hostile", "c14", count, shards=list(range(8)), build_kw=WRAP, timeout=1800)
     c.spec("hostile-rel", "rel", "drv_hostile", "c14", count, build_kw=WRAP, timeout=1800)
+    other_builds(c, "hostile", "drv_hostile", "c14", count, build_kw=WRAP, timeout=1800)
     for ep in C14_EPS:
         c.require("accepted." + ep, c.stat("accepted." + ep), 500)
         c.require("rejected." + ep, c.stat("rejected." + ep), 500)
